@@ -190,6 +190,17 @@ class PathSym:
         return out
 
 
+def member_of(var, idx):
+    """constraint 'var in idx' -- linear when idx is an arithmetic progression (the usual interleaved split)"""
+    idx = list(idx)
+    if len(idx) > 2:
+        k = idx[1] - idx[0]
+        if k > 0 and all(b - a == k for a, b in zip(idx, idx[1:])):
+            t = z3.Int("split_" + str(var))
+            return z3.And(t >= 0, t < len(idx), var == idx[0] + k * t)
+    return z3.Or([var == n for n in idx])
+
+
 _WORKER = [None, None]
 
 
